@@ -381,7 +381,10 @@ def patched(*modules, extra=None):
                         if isinstance(cv_, re.Pattern):
                             setc(v, ck, SymPattern(cv_))
         for (m, k), v in (extra or {}).items():
-            setg(m.__dict__, k, v)
+            if isinstance(m, type):
+                setc(m, k, v)
+            else:
+                setg(m.__dict__, k, v)
         yield
     finally:
         _ACTIVE.remove(saved)
